@@ -11,6 +11,8 @@
 (*   write_ok : Mesh.write() succeeded after the documented chop calls     *)
 (*   groups, iface : block index sets of chained shapes and the number of  *)
 (*              vertices each listed pair must share                       *)
+(*   opposite_ok : chained shapes lie on opposite sides of their planar    *)
+(*              interface (harness predicate over the vertex positions)    *)
 (* The topological clauses are evaluated here from the recorded indexes.   *)
 (***************************************************************************)
 EXTENDS Hex, Json, IOUtils
@@ -41,10 +43,12 @@ VertexCount(r) == r.exp_nverts = 0 \/ r.nverts = r.exp_nverts
 GroupVerts(r, g) == UNION { V(r, b) : b \in Range(r.groups[g]) }
 Interfaces(r) == \A x \in Range(r.iface) : Cardinality(GroupVerts(r, x[1]) \cap GroupVerts(r, x[2])) = x[3]
 
-Verdict(r) == { c \in {"sides-shared", "whole-sides", "connected", "right-handed", "vertex-count", "arcs-on-circle", "write", "interfaces"} :
+Verdict(r) == { c \in {"sides-shared", "whole-sides", "connected", "right-handed", "vertex-count", "arcs-on-circle", "write", "interfaces",
+                         "interface-sides"} :
                   ~ (CASE c = "sides-shared" -> SidesShared(r) [] c = "whole-sides" -> WholeSides(r) [] c = "connected" -> Connected(r)
                        [] c = "right-handed" -> RightHanded(r) [] c = "vertex-count" -> VertexCount(r) [] c = "arcs-on-circle" -> r.arcs_ok
-                       [] c = "write" -> r.write_ok [] c = "interfaces" -> Interfaces(r)) }
+                       [] c = "write" -> r.write_ok [] c = "interfaces" -> Interfaces(r)
+                       [] c = "interface-sides" -> r.opposite_ok) }
 Init == LET rs == Recs IN \E i \in 1..Len(rs) : rec = rs[i]
 Spec == Init /\ [][UNCHANGED rec]_rec
 Emit == PrintT(ToJson([id |-> rec.id, fails |-> Verdict(rec)]))
